@@ -23,7 +23,11 @@ UNI_LETTERS = [
     "\u0958", "a\u0300", "ａ", "Ａ", "１", "µ", "μ",
 ]
 MULTI = ["http://", "https://", "HTTP://", "//", "://", "%2F", "%7E", "%41", "%", "%%", "%s", "{}", "{0}", "\\n", "\\", "pull", "issues", "@id",
-         "ns1", "ns10", "None", "nan", "0", "00", "01", "-1", "a+b", "a b", "..", "../", "&amp;", "<x>", "[x]", "a,b", "a;b", "a|b"]
+         "ns1", "ns10", "None", "nan", "0", "00", "01", "-1", "a+b", "a b", "..", "../", "&amp;", "<x>", "[x]", "a,b", "a;b", "a|b",
+         # names and namespaces that RDF / XML tooling treats specially
+         "sh", "xsd", "rdf", "rdfs", "owl", "xml", "xmlns", "XML", "xmlfoo", "static", "_",
+         "http://www.w3.org/ns/shacl#", "http://www.w3.org/2001/XMLSchema#", "http://www.w3.org/1999/02/22-rdf-syntax-ns#",
+         "http://www.w3.org/2002/07/owl#", "http://www.w3.org/2000/01/rdf-schema#", "http://www.w3.org/XML/1998/namespace"]
 
 TOKENS = ASCII_PRINTABLE + CONTROLS + UNI_SPACE + UNI_LETTERS + MULTI
 TOKENS_QUICK = TOKENS   # cheap enough for every run
